@@ -122,6 +122,17 @@ mod verif_ops {
         assert!(matches!(&Object::Byte(kani::any()) % &Object::Float(fb), Object::Float(_)));
     }
 
+    // is_zero (the VM's divide/modulo-by-zero guard): exactly the zeros; any other float, however small, is not zero
+    #[kani::proof]
+    fn c09_is_zero_model() {
+        let i: i64 = kani::any(); let f: f64 = kani::any(); let b: u8 = kani::any();
+        assert!(Object::Integer(i).is_zero() == (i == 0));
+        assert!(Object::Float(f).is_zero() == (f == 0.0));
+        assert!(Object::Byte(b).is_zero() == (b == 0));
+        assert!(!Object::Null.is_zero() && !Object::Bool(kani::any()).is_zero() && !Object::Char(kani::any()).is_zero());
+        kani::cover!(f != 0.0 && f > -1e-300 && f < 1e-300);
+    }
+
     // unary minus: two's complement on integers (MIN stays MIN), IEEE negation on floats
     #[kani::proof]
     fn c09_neg_model() {
